@@ -52,7 +52,7 @@ int main (int argc, char** argv)
     run_stage ("sets.half", "element type half: Interval<half>, Box<Vec2<half>> (Box2h), Box<Vec3<half>> (Box3h), generic Box in 2-D/3-D, Box<Vec4<half>>: every (min,max) in {0..3} per axis incl. inverted x every point of {-1..4}^D; all ordered box pairs (4096^2 in 3-D; 4-D pairs over coordinates {0..2}: 6561^2); canonical empty/infinite with the range ends written as half bit patterns",
                [&] { return c13::run_sets<half> (false); });
 
-    const char* ext_bound = "Interval, Box<Vec2>, Box<Vec3>, generic Box in 2-D/3-D, Box<Vec4>: every box with per-axis (min,max) in {(LOWEST,MAX),(LOWEST,1),(0,MAX),(0,1),(MAX,LOWEST),(MAX,MAX)} (6^D boxes) x every point of {LOWEST,-1,0,1,2,MAX}^D; all ordered box pairs; extendBy(point / box) from every non-empty and the canonical empty box; size/center/majorAxis wherever the arithmetic is defined";
+    const char* ext_bound = "Interval, Box<Vec2>, Box<Vec3>, generic Box in 2-D/3-D, Box<Vec4>: every box with per-axis (min,max) in {(LOWEST,MAX),(LOWEST,1),(0,MAX),(0,1),(MAX,LOWEST),(MAX,MAX)} (6^D boxes) x every point of {LOWEST,-1,0,1,2,MAX}^D; all ordered box pairs; extendBy(point / box) from every non-empty and the canonical empty box; size/center/majorAxis wherever the arithmetic is defined; second alphabet with both bounds large and of the same sign - per-axis (MAX-1,MAX),(MAX/2+1,MAX),(LOWEST,LOWEST/2-1),(LOWEST,LOWEST+1),(MAX/4,MAX/2),(LOWEST/2,LOWEST/4),(MAX,MAX),(LOWEST,LOWEST),(0,1) (9^D boxes, floating types: neighbouring representable values) x points {LOWEST,LOWEST/2-1,0,MAX/2+1,MAX-1,MAX}^D: predicates, membership, size, majorAxis, and center wherever max+min is representable or formed in int by promotion (Interval<short>, Interval<signed char>, Interval<unsigned char>: every pair)";
     run_stage ("extremes.short", ext_bound, [&] { return c13::run_extremes<short> (th); });
     run_stage ("extremes.int", ext_bound, [&] { return c13::run_extremes<int> (th); });
     run_stage ("extremes.int64", ext_bound, [&] { return c13::run_extremes<int64_t> (th); });
